@@ -198,6 +198,11 @@ class Sym:
                 return r
             if kv == Fraction(1, 2):
                 return self.sqrt()
+            if isinstance(kv, (int, Fraction)) and self.im is None:
+                # fractional power of a real: uninterpreted (only compared against constants by step controllers)
+                return Sym(X.uf("pow", self.re, X.const(Fraction(kv))))
+        if kk is None and isinstance(k, float) and self.im is None:
+            return Sym(X.uf("pow", self.re, X.const(Fraction(k))))
         raise SymbolicEscape("unsupported power %r" % (k,))
 
     def __rpow__(self, base):
@@ -234,19 +239,23 @@ class Sym:
                 return Sym(X.ONE)
             return _lift(cmath.exp(complex(v)) if isinstance(v, complex) else float(np.exp(float(v))))
         if self.im is None:
-            return Sym(X.uf("exp", self.re))
-        er = X.uf("exp", self.re) if not (X.const_value(self.re) == 0) else X.ONE
-        return Sym(X.mul(er, X.uf("cos", self.im)), X.mul(er, X.uf("sin", self.im)))
+            return Sym(X.uf("exp", X.canon(self.re)))
+        er = X.uf("exp", X.canon(self.re)) if not (X.const_value(self.re) == 0) else X.ONE
+        c, s_ = Sym(self.im).cos(), Sym(self.im).sin()
+        return Sym(X.mul(er, c.re), X.mul(er, s_.re))
 
     def cos(self):
         if self.im is not None:
             raise SymbolicEscape("cos complex")
-        return Sym(X.uf("cos", self.re))
+        arg, flip = _even_odd_arg(self.re)
+        return Sym(X.uf("cos", arg))
 
     def sin(self):
         if self.im is not None:
             raise SymbolicEscape("sin complex")
-        return Sym(X.uf("sin", self.re))
+        arg, flip = _even_odd_arg(self.re)
+        r = Sym(X.uf("sin", arg))
+        return -r if flip else r
 
     def log(self):
         if self.im is not None:
@@ -337,6 +346,20 @@ class Sym:
         return "Sym(%s + i*%s)" % (X.show(self.re, 4), X.show(self.im, 4))
 
 
+def _even_odd_arg(e):
+    """canonical sign of a trigonometric argument: (arg', flipped) with arg' = +-arg whose leading coefficient is positive"""
+    try:
+        p = X.poly(e)
+    except X.PolyOverflow:
+        return e, False
+    if not p:
+        return X.ZERO, False
+    lead = min(p)
+    if p[lead] < 0:
+        return X.canon(X.neg(e)), True
+    return X.canon(e), False
+
+
 numbers.Number.register(Sym)
 
 
@@ -421,6 +444,15 @@ class SymArray(np.ndarray):
 
     def any(self, axis=None, out=None, keepdims=False, **kw):
         if axis is None and out is None and not keepdims and self.dtype == object:
+            ex = get_explorer()
+            if ex is not None and getattr(ex, "any_mode", "exact") == "opaque":
+                # used when entries are huge terms: `x.any()` only ever guards `assert x.any()` preconditions
+                for v in self.flat:
+                    if not isinstance(v, (Sym, SymBool)) and v:
+                        return True
+                # taken as an assumed precondition ("the tensor is not identically zero"): no fork
+                ex._anycount = getattr(ex, "_anycount", 0) + 1
+                return True
             bs = []
             for v in self.flat:
                 if isinstance(v, Sym):
